@@ -238,7 +238,11 @@ def vec_rule(rep, prog, cfg):
     # None iff empty, decided on the outcome of the first next() (A13): with a first command the function can only return
     # Some(the list built from it); without one it builds nothing
     from ..cfg import VariantReach
-    firsts = [(bb, t) for bb, t in b.calls() if NEXT in callee_names(t)]
+    gq = Cfg(b)
+    news_q = [bb for bb, t in b.calls() if RAWLIST + "new" in callee_names(t)]
+    firsts = [(bb, t) for bb, t in b.calls() if t.get("dest") is not None and b.local_ty(t["dest"]["l"]).startswith("core::option::Option<") and
+              any(n.rsplit("::", 1)[-1] in ("next", "split_first", "first", "split_last") for n in callee_names(t)) and
+              news_q and all(gq.dom(bb, nb_) for nb_ in news_q)]      # the Option-valued question that is asked before the list is built
     if len(firsts) >= 1:
         vr = VariantReach(b)
         fbb, ft = firsts[0]
